@@ -8,6 +8,8 @@ own invocations:
          may re-enter the SAME nucleus while a round is executed -- nested transcribe_with_tools, transcribe,
          clear_log -- and several calls are made one after the other on one nucleus; every provider / mitochondria
          invocation is attributed to the activation that is executing at that moment)
+heal / swarm objects are also driven through HISTORIES of operations (case["ops"]): public budget fields assigned on the
+live object (lowered and raised) between calls; every call is held to the value configured when it is made.
 """
 import datetime as _dt
 import hashlib
@@ -195,6 +197,39 @@ SWARM_DEFAULTS = {"max_regen": 3, "max_steps": 10, "thr": 0.9}
 TOOL_DEFAULTS = {"max_iter": 10, "auto": True}
 
 
+# ----------------------------------------------------------------------------
+# histories of operations on ONE live object: attribute assignments and calls
+# ----------------------------------------------------------------------------
+# case["ops"] (heal / swarm): the object is constructed with the case's limits, then the operations are made in
+# order:  ["call"]  = loop.heal(prompt) / swarm.supervise(task);   ["set", field, value]  = the public dataclass field
+# is ASSIGNED on the live object.  Without "ops" the history is 1 + case["again"] calls and no assignment.
+SET_ATTR = {"heal": {"max_retries": "max_retries", "decay": "confidence_decay"},
+            "swarm": {"max_regen": "max_regenerations", "max_steps": "max_steps_per_worker", "thr": "entropy_threshold"}}
+
+
+def hist_ops(case):
+    if "ops" in case:
+        return case["ops"]
+    return [["call"]] * (1 + case.get("again", 0))
+
+
+def hist_cfgs(case):
+    """for every call of the history: (the configuration IN EFFECT = the value each attribute holds when the call is
+    made, text describing how it got there)"""
+    cfg = {f: case[f] for f in SET_ATTR[case["kind"]]}
+    out, told = [], []
+    for op in hist_ops(case):
+        if op[0] == "set":
+            if op[1] not in cfg:
+                raise AssertionError(f"harness: no such field {op[1]}")
+            told.append(f"{SET_ATTR[case['kind']][op[1]]} {cfg[op[1]]} -> {op[2]}")
+            cfg = {**cfg, op[1]: op[2]}
+        else:
+            out.append((cfg, "; ".join(told)))
+            told = []
+    return out
+
+
 def ev_prov(p, k, prev, q=0):
     """k = the provider's own (global) complete_with_tools invocation index, q = id of the base prompt"""
     fam = p["fam"]
@@ -253,6 +288,16 @@ class C18(Check):
             "that the object's cumulative state (worker counter, the two shared event logs with up to some hundred recorded "
             "worker deaths, transcription log) dwarfs a single call's; every call is checked on its own and what each SwarmResult "
             "shows of the cumulative state (total_workers_spawned, lengths of the shared logs) is compared with the model. "
+            "BUDGETS ASSIGNED ON A LIVE OBJECT: ChaperoneLoop.max_retries / confidence_decay and RegenerativeSwarm."
+            "max_regenerations / max_steps_per_worker / entropy_threshold are public fields of mutable dataclasses; a case may "
+            "carry a HISTORY of operations on the one object - ['set', field, value] (the field is assigned) and ['call'] "
+            "(heal() / supervise()) in any order: every ordered pair of limits 0..4 and -1 (lowered and raised), with and "
+            "without a call under the construction-time value, the assigned budget applied to two calls, chains of "
+            "assignments, two assignments without a call in between, all three swarm fields mixed, 10 / 25 calls with the "
+            "budgets changed before every call, random histories of 2..30 operations; the budget that applies to a call "
+            "is the value configured when the call is made (monitor and model); the tool loop's max_iterations / "
+            "auto_execute are per-call arguments (varied from call to call), and Nucleus.base_energy_cost / max_retries "
+            "are assigned on the live nucleus between calls (fields the model does not see). "
             "non-trivial = at least one environment invocation; distinct by case content")
     LEVEL_TEXT = ("Coq theorems for ALL generator / validator / worker / factory / provider / tool functions and all integer limits about "
                   "hand-written models of ChaperoneLoop.heal, RegenerativeSwarm.supervise/_run_worker (also with factory + workers as "
@@ -266,7 +311,10 @@ class C18(Check):
                   "for a long-lived swarm OBJECT in any state (any worker counter, event logs of any length) every call keeps "
                   "its budgets and only appends to the counter / logs (the logs are ghost state: no run reads them); an "
                   "exception that leaves a tool-loop activation is, whatever its class, the one its last provider invocation "
-                  "raised (nothing swallowed, converted or retried with a fresh budget). "
+                  "raised (nothing swallowed, converted or retried with a fresh budget); "
+                  "for ANY history of attribute assignments and calls on one live ChaperoneLoop / RegenerativeSwarm the call "
+                  "made after a prefix of operations is exactly one call under the configuration that prefix leaves (last "
+                  "assignment wins, lowered or raised) and keeps THAT configuration's budgets. "
                   "The models are tied to the code by evaluating them in Coq on every scripted case the real "
                   "classes ran (limits 0..4 x adversary families exhaustively) and a Python monitor checks the property on every "
                   "implementation trace.")
@@ -303,8 +351,10 @@ class C18(Check):
                    "heal()/supervise() are driven once on fresh objects, 2..4 times and 10..60 times on one object "
                    "(RegenerativeSwarm._worker_counter is cumulative across supervise() calls: a later call's workers continue the "
                    "numbering; the monitor demands total_workers_spawned only of the first call, the correspondence compares the "
-                   "cumulative value on every call); the tool loop is also driven re-entrantly and up to 60 times on one object; "
-                   "limits stay fixed over an object's life",
+                   "cumulative value on every call); the tool loop is also driven re-entrantly and up to 60 times on one object",
+                   "budget attributes are assigned on live objects BETWEEN calls (histories of set / call operations), never "
+                   "while a call on that object is in progress (the property does not say which value a call in progress "
+                   "should follow); the budget a call is held to is the value the harness configured last before making it",
                    "console output (silent=False) is captured into a StringIO; real LLM providers (API key present) are not driven - "
                    "auto-detection is exercised only down to the MockProvider fallback with the three API-key variables removed",
                    "stub provider = function of its own global invocation index, the base prompt and the tool results in the prompt "
@@ -521,7 +571,8 @@ class C18(Check):
                         out.append({"kind": "tool", "prov": p, "comp": comps[i % 3], "tools": ts, "auto": True,
                                     "has_method": True, "max_iter": mi, "depth": dp})
         # consecutive calls on one nucleus (plain and re-entrant tools)
-        seqs = [[[2, True]], [[1, True], [3, True]], [[0, True], [4, False], [2, True]]]
+        seqs = [[[2, True]], [[1, True], [3, True]], [[0, True], [4, False], [2, True]],
+                [[3, True, [0, 0]], [1, True, [25, 7]], [4, True, [10, -1]]]]
         flaky = [q for q in xprovs if q["fam"] == "flaky"][:2] + [q for q in xprovs if q["fam"] == "script"
                                                                  and len(q["items"]) == 3][:3]
         for p in rprovs[:4] + provs[:3] + [provs[-1]] + flaky:
@@ -764,6 +815,9 @@ class C18(Check):
                     for ncalls in longs[:2]:
                         i += 1
                         more = [[[mi, 0, 4, mi, -1, 2][(i + j) % 6] if i % 2 else mi, True] for j in range(ncalls - 1)]
+                        if i % 3 == 0:      # Nucleus fields assigned on the live nucleus before every third call
+                            more = [m + [[[0, 0], [25, 7], [10, -1], [1, 1]][(j // 3) % 4]] if j % 3 == 0 else m
+                                    for j, m in enumerate(more)]
                         c = {"kind": "tool", "prov": p, "comp": [["aff", 100], ["raisefinal", i % N_EXC], ["aff", 200]][i % 3],
                              "tools": ts, "auto": True, "has_method": True, "max_iter": mi, "depth": 1, "more": more}
                         if i % 4 == 0:
@@ -771,6 +825,141 @@ class C18(Check):
                         if i % 5 == 0:
                             c["nuc"] = [[0, 0], [1, 1], [25, 7], [10, -1]][(i // 5) % 4]
                         out.append(c)
+        return out
+
+    # -- budgets ASSIGNED on a live object ---------------------------------------------------
+    def _hist_swarm_case(self, fam, mg, ms, thr, ops, **extra):
+        """a swarm constructed with (mg, ms, thr) on which `ops` are made; the behaviour table is large enough for
+        every call of the history under the configuration in effect at that call"""
+        c = {"kind": "swarm", "max_regen": mg, "max_steps": ms, "thr": thr, "fam": fam[0], "ops": ops}
+        cfgs = [cf for cf, _ in hist_cfgs(c)]
+        nw = sum(max(cf["max_regen"], 0) + 1 for cf in cfgs) + 2
+        ns = max([max(cf["max_steps"], 0) for cf in cfgs] + [max(ms, 0)]) + 2
+        fac, tab, d = self._swarm_table(fam, nw, ns)
+        if fam[0] in ("marker", "raise", "facraise"):       # the special worker recurs over the object's life
+            per = min(len(tab), 4)
+            fac, tab = (fac[:per] * nw)[:nw], (tab[:per] * nw)[:nw]
+        return {**c, "fac": fac, "beh": tab, "dflt": d, **extra}
+
+    def _reconf_cases(self, deep):
+        """LIVE objects whose budget attributes are ASSIGNED between calls: ChaperoneLoop.max_retries /
+        confidence_decay, RegenerativeSwarm.max_regenerations / max_steps_per_worker / entropy_threshold are public
+        fields of mutable dataclasses.  Every ordered pair of limits 0..4 (and -1), lowered and raised, with and without
+        a call under the construction-time value; chains of assignments; two assignments without a call in between;
+        the budget that applies to a call is the value configured when the call is made."""
+        o = self._out
+        out = []
+        CALL = ["call"]
+        S = lambda f, v: ["set", f, v]
+        lim = [0, 1, 2, 3, 4, -1] + ([5, 6] if deep else [])
+        # ---- heal
+        hb = self._heal_behaviours(deep)
+        sel = hb[:8] + hb[8::(3 if deep else 7)]
+        modes = [("real", 4), ("stub", 0), ("real", 2)]
+        chains = [[4, 1, 0, 3], [0, 4, 0], [2, 3, 1, 4, 0], [1, -1, 2], [3, 3, 0], [0, 1, 2, 3, 4]]
+        i = 0
+        for g in sel:
+            for a in lim[4::-1] + lim[5:]:          # 4, 3, 2, 1, 0, then the out-of-range limits
+                for b in lim:
+                    if a == b:
+                        continue
+                    for first in (False, True):
+                        i += 1
+                        if not deep and (i % 2) and abs(a - b) == 1 and min(a, b) > 0:
+                            continue
+                        mode, ns = modes[i % 3]
+                        ops = ([CALL] if first else []) + [S("max_retries", b), CALL]
+                        if i % 5 == 0:
+                            ops.append(CALL)                      # the assigned budget goes on applying
+                        c = {"kind": "heal", "mode": mode, "nstrat": ns, "gen": g, "decay": DECAYS[i % len(DECAYS)],
+                             "max_retries": a, "ops": ops}
+                        if i % 4 == 0:
+                            c["loud"] = True
+                        if i % 3 == 0:
+                            c["exc"] = i % N_EXC
+                        out.append(c)
+            for ch in chains:
+                i += 1
+                mode, ns = modes[i % 3]
+                ops = [CALL] if i % 2 else []
+                for j, v in enumerate(ch[1:]):
+                    ops.append(S("max_retries", v))
+                    if (i + j) % 3 == 0:
+                        ops.append(S("decay", DECAYS[(i + j) % len(DECAYS)]))
+                    ops.append(CALL)
+                out.append({"kind": "heal", "mode": mode, "nstrat": ns, "gen": g, "decay": DECAYS[i % len(DECAYS)],
+                            "max_retries": ch[0], "ops": ops})
+            # two assignments without a call in between (the last one wins); decay assigned alone
+            for a, b, c2 in ((4, 0, 2), (0, 4, 1), (2, 1, 3), (1, 3, 0)):
+                i += 1
+                mode, ns = modes[i % 3]
+                out.append({"kind": "heal", "mode": mode, "nstrat": ns, "gen": g, "decay": DECAYS[i % len(DECAYS)],
+                            "max_retries": a,
+                            "ops": [S("max_retries", b), S("max_retries", c2), CALL, S("decay", DECAYS[(i + 1) % len(DECAYS)]),
+                                    CALL, S("max_retries", a), CALL]})
+        # a long-lived loop whose budget changes before every call
+        for g in sel[:6:2] + sel[8:11]:
+            for ncalls in (10, 25):
+                i += 1
+                mode, ns = modes[i % 3]
+                ops = []
+                for j in range(ncalls):
+                    ops += [S("max_retries", [4, 1, 0, 3, 2, -1, 4][(i + j) % 7]), CALL]
+                out.append({"kind": "heal", "mode": mode, "nstrat": ns, "gen": g, "decay": DECAYS[i % len(DECAYS)],
+                            "max_retries": 2, "ops": ops})
+        # ---- swarm
+        fams = [("stuck", 3), ("fresh",), ("alt",), ("aab",), ("marker", 1, 1, 3, -1), ("marker", 0, 3, 4, 7),
+                ("raise", 1, 2, -1), ("facraise", 1, 4)] + ([("per3",), ("marker", 2, 0, 2, -1)] if deep else [])
+        regs = [0, 1, 2, 3, 4] + ([-1, 5] if deep else [])
+        stps = [0, 1, 2, 3, 5] + ([4, 7, -1] if deep else [])
+
+        def deco(c, i):
+            if i % 4 == 1:
+                c = {"kind": "swarm", "mem": MEM_POLICIES[(i // 4) % len(MEM_POLICIES)], **c}
+            elif i % 4 == 3:
+                c["wk"] = "proto"
+            if i % 5 == 0:
+                c["loud"] = True
+            if c["fam"] in ("raise", "facraise"):
+                c["exc"] = i % N_EXC
+            return c
+        for fam in fams:
+            for a in regs:
+                for b in regs:
+                    if a == b:
+                        continue
+                    i += 1
+                    first = bool(i % 2) if not deep else None
+                    for fst in ((first,) if first is not None else (False, True)):
+                        ops = ([CALL] if fst else []) + [S("max_regen", b), CALL] + ([CALL] if i % 5 == 0 else [])
+                        out.append(deco(self._hist_swarm_case(fam, a, [3, 4, 1, 5][i % 4], [0.9, 0.5, 0.0][i % 3], ops), i))
+            for a in stps:
+                for b in stps:
+                    if a == b:
+                        continue
+                    i += 1
+                    first = bool(i % 2) if not deep else None
+                    for fst in ((first,) if first is not None else (False, True)):
+                        ops = ([CALL] if fst else []) + [S("max_steps", b), CALL] + ([CALL] if i % 5 == 0 else [])
+                        out.append(deco(self._hist_swarm_case(fam, [1, 2, 0][i % 3], a, [0.9, 0.5, 0.0][i % 3], ops), i))
+            for t0, t1 in ((0.9, 0.0), (0.0, 0.9), (0.5, 1.0), (1.0, 0.5), (0.9, 0.5)):
+                i += 1
+                out.append(deco(self._hist_swarm_case(fam, 1 + i % 2, 4 + i % 2, t0, [CALL, S("thr", t1), CALL]), i))
+            mixed = [[S("max_regen", 0), S("max_steps", 1), CALL, S("max_regen", 3), CALL, S("max_steps", 5), CALL],
+                     [CALL, S("max_steps", 0), CALL, S("max_steps", 4), S("max_regen", 4), CALL],
+                     [S("max_regen", 4), S("max_regen", 1), CALL, S("thr", 0.0), S("max_steps", 2), CALL, S("max_regen", 2), CALL],
+                     [CALL, S("max_regen", -1), CALL, S("max_regen", 2), S("max_steps", 3), CALL, CALL]]
+            for ops in mixed:
+                i += 1
+                out.append(deco(self._hist_swarm_case(fam, 2, 3, [0.9, 0.5][i % 2], ops), i))
+        # a long-lived swarm whose budgets change before every call
+        for fam in fams[:4] + fams[4:7:2]:
+            for ncalls in (10, 25):
+                i += 1
+                ops = []
+                for j in range(ncalls):
+                    ops += [S("max_regen", [3, 0, 2, 4, 1][(i + j) % 5]), S("max_steps", [5, 2, 4, 1, 3, 0][(i + 2 * j) % 6]), CALL]
+                out.append(deco(self._hist_swarm_case(fam, 1, 3, [0.9, 0.5, 0.0][i % 3], ops), i))
         return out
 
     @staticmethod
@@ -788,6 +977,16 @@ class C18(Check):
         deep = self.tier != "quick"
         base = (self._decorate(self._heal_cases(deep) + self._swarm_cases(deep) + self._tool_cases(deep))
                 + self._extra_cases(deep))
+        # histories with attribute assignments, interleaved with the grid (long histories among them)
+        rc = self._reconf_cases(deep)
+        stride = max(1, len(base) // (len(rc) + 1))
+        mixed, j = [], 0
+        for idx, c in enumerate(base):
+            mixed.append(c)
+            if (idx + 1) % stride == 0 and j < len(rc):
+                mixed.append(rc[j])
+                j += 1
+        base = mixed + rc[j:]
         # the long-lived histories are spread evenly over the case list (their observations are long: the Coq
         # evaluation is sharded by position, and one shard holding all of them would be the long pole)
         ll = self._long_lived_cases(deep)
@@ -839,7 +1038,26 @@ class C18(Check):
         if rng.random() < 0.08:
             case["max_retries"] = HEAL_DEFAULTS["max_retries"]
             case["omit"] = ["max_retries"]
+        if rng.random() < 0.3:         # a history with attribute assignments on the live loop
+            case.pop("again", None)
+            case["ops"] = self._rand_ops(rng, [("max_retries", [-1, 0, 0, 1, 1, 2, 3, 4, 5, 6]), ("max_retries", [0, 1, 2, 3, 4]),
+                                               ("decay", DECAYS)])
         return case
+
+    @staticmethod
+    def _rand_ops(rng, fields):
+        """a random history: calls and assignments in any order (at least one call; sometimes a long one)"""
+        n = rng.randint(8, 30) if rng.random() < 0.05 else rng.randint(2, 8)
+        ops = []
+        for _ in range(n):
+            if rng.random() < 0.45:
+                ops.append(["call"])
+            else:
+                f, vals = rng.choice(fields)
+                ops.append(["set", f, rng.choice(vals)])
+        if ops[-1][0] != "call":
+            ops.append(["call"])
+        return ops
 
     def _rand_swarm(self, rng):
         mg = rng.choice([-1, 0, 1, 2, 3, 4, 5])
@@ -853,6 +1071,14 @@ class C18(Check):
             mg = SWARM_DEFAULTS["max_regen"] if "max_regen" in omit else mg
             ms = SWARM_DEFAULTS["max_steps"] if "max_steps" in omit else ms
         nw, ns = (max(mg, 0) + 1) * (again + 1) + 2, max(ms, 0) + 2
+        ops = None
+        if rng.random() < 0.3:         # a history with attribute assignments on the live swarm
+            again = 0
+            ops = self._rand_ops(rng, [("max_regen", [-1, 0, 0, 1, 2, 3, 4, 5]), ("max_steps", [0, 1, 2, 3, 4, 5, 6, 7, 8]),
+                                       ("max_regen", [0, 1, 2, 3, 4]), ("thr", THRESHOLDS)])
+            cfgs = [cf for cf, _ in hist_cfgs({"kind": "swarm", "max_regen": mg, "max_steps": ms, "thr": 0.5, "ops": ops})]
+            nw = sum(max(cf["max_regen"], 0) + 1 for cf in cfgs) + 2
+            ns = max(max(cf["max_steps"], 0) for cf in cfgs) + 2
         pool = rng.choice([1, 2, 2, 3, 4, 50])
         pm = rng.choice([0.0, 0.03, 0.1])
         pr = rng.choice([0.0, 0.0, 0.03])
@@ -871,6 +1097,8 @@ class C18(Check):
                 "max_regen": mg, "max_steps": ms, "fam": "random"}
         if again:
             case["again"] = again
+        if ops:
+            case["ops"] = ops
         if omit:
             case["omit"] = omit
         if rng.random() < 0.35:
@@ -924,7 +1152,10 @@ class C18(Check):
             case = self._mock_tool_case(rng.choice([None, 0, 0, 1, 2, 7]), tl, case["max_iter"], case["auto"],
                                         case.get("depth", 1))
         if rng.random() < 0.3:
-            case["more"] = [[rng.choice([-1, 0, 1, 2, 3, 4]), rng.random() < 0.85] for _ in range(rng.randint(1, 2))]
+            case["more"] = [[rng.choice([-1, 0, 1, 2, 3, 4]), rng.random() < 0.85] for _ in range(rng.randint(1, 3))]
+            if rng.random() < 0.4:      # Nucleus fields assigned on the live nucleus between the calls
+                case["more"] = [m + [[rng.choice([0, 1, 10, 25]), rng.choice([-1, 0, 1, 2, 4, 7])]] if rng.random() < 0.7 else m
+                                for m in case["more"]]
         elif rng.random() < 0.05:      # a long-lived nucleus
             case["more"] = [[rng.choice([0, 1, 2, 3, 4]), rng.random() < 0.9] for _ in range(rng.randint(6, 25))]
         if rng.random() < 0.06:
@@ -1018,7 +1249,7 @@ class C18(Check):
         outputs = []                   # output strings in order (None = raised)
         loop_box = {}
         start = [0]                    # generator invocations before the heal() call in progress
-        bound = max(0, case["max_retries"] + 1)
+        bound = [max(0, case["max_retries"] + 1)]      # of the heal() call in progress (stub safety net only)
         g = case["gen"]
         mockgen = None
         if g["fam"] == "mock":         # the library's own helper generator
@@ -1043,7 +1274,7 @@ class C18(Check):
             k = kg - start[0]
             ec = None if error_context is None else ctx_ids.get(error_context, (-1, -1))
             calls.append((k, error_context, ec))
-            if k >= bound + SLACK:
+            if k >= bound[0] + SLACK:
                 outputs.append(None)
                 raise Runaway("generator")
             if mockgen is not None:
@@ -1079,7 +1310,13 @@ class C18(Check):
             return [10, k, 0, 0, 0] if s is None else [10, k, 1, ec[0], ec[1]]
 
         runs, obs, other = [], [], None
-        for _ in range(1 + case.get("again", 0)):  # consecutive heal() calls on the one loop
+        cfgs = hist_cfgs(case)
+        for op in hist_ops(case):                  # the history of the ONE loop: assignments and heal() calls
+            if op[0] == "set":                     # a public field assigned on the live object
+                setattr(loop, SET_ATTR["heal"][op[1]], op[2])
+                continue
+            cfg, told = cfgs[len(runs)]
+            bound[0] = max(0, cfg["max_retries"] + 1)
             start[0] = len(calls)
             res, exc = None, None
             try:
@@ -1092,7 +1329,7 @@ class C18(Check):
                 else:
                     exc = ("other", f"{type(e).__name__}: {e}")
             rcalls, routs = calls[start[0]:], outputs[start[0]:]
-            run = {"calls": rcalls, "outputs": routs, "exc": exc, "res": None}
+            run = {"calls": rcalls, "outputs": routs, "exc": exc, "res": None, "cfg": cfg, "told": told}
             runs.append(run)
             if res is None:
                 obs += [[1, 3, 0, 0, 0, len(rcalls)], [0, 1]] + [call_line(c) for c in rcalls]
@@ -1129,7 +1366,7 @@ class C18(Check):
         hints_seen = []        # memory hints handed to the factory
         seen_strings = {}
         start = [0]            # factory invocations before the supervise() call in progress
-        wbound = max(0, case["max_regen"] + 1)
+        cur = {"max_regen": case["max_regen"], "max_steps": case["max_steps"]}   # of the call in progress (safety net only)
         proto = case.get("wk") == "proto"
         loud = bool(case.get("loud"))
         stubs = StubRaiser()
@@ -1185,14 +1422,14 @@ class C18(Check):
             spawned.append(w)
             steps[w] = []
             hints_seen.append(list(hints))
-            if len(spawned) - start[0] > wbound + SLACK:
+            if len(spawned) - start[0] > max(0, cur["max_regen"] + 1) + SLACK:
                 raise Runaway("factory")
             if w < len(fac) and not fac[w]:
                 raise stub_exc("factory", w)
 
             def work(task, memory):
                 j = len(steps[w])
-                if j >= max(0, case["max_steps"]) + SLACK:
+                if j >= max(0, cur["max_steps"]) + SLACK:
                     steps[w].append(None)
                     raise Runaway("step")
                 st = beh(w, j)
@@ -1255,7 +1492,13 @@ class C18(Check):
 
         runs, obs, other = [], [], None
         n_ap = n_rg = 0        # apoptosis / regeneration events recorded on the swarm before the call in progress
-        for _ in range(1 + case.get("again", 0)):  # consecutive supervise() calls on the one swarm
+        cfgs = hist_cfgs(case)
+        for op in hist_ops(case):                  # the history of the ONE swarm: assignments and supervise() calls
+            if op[0] == "set":                     # a public field assigned on the live object
+                setattr(swarm, SET_ATTR["swarm"][op[1]], op[2])
+                continue
+            cfg, told = cfgs[len(runs)]
+            cur.update(max_regen=cfg["max_regen"], max_steps=cfg["max_steps"])
             w0 = start[0] = len(spawned)
             res, exc = None, None
             try:
@@ -1268,7 +1511,8 @@ class C18(Check):
                 else:
                     exc = ("other", f"{type(e).__name__}: {e}")
             rsp = spawned[w0:]
-            run = {"w0": w0, "spawned": rsp, "steps": {w: steps[w] for w in rsp}, "exc": exc, "res": None}
+            run = {"w0": w0, "spawned": rsp, "steps": {w: steps[w] for w in rsp}, "exc": exc, "res": None,
+                   "cfg": cfg, "told": told}
             runs.append(run)
             if exc and exc[0] == "other":
                 other = exc
@@ -1325,7 +1569,10 @@ class C18(Check):
         stack = []      # frames currently open, outermost first
         tools = case["tools"]
         depth_cap = case.get("depth", 1)
-        top_calls = [[case["max_iter"], case["auto"]]] + [list(c) for c in case.get("more", [])]
+        top_calls = [[case["max_iter"], case["auto"]]] + [list(c[:2]) for c in case.get("more", [])]
+        # a third element of a `more` entry: [base_energy_cost, max_retries] ASSIGNED on the live nucleus before that
+        # call (Nucleus.max_retries is not the tool loop's budget; the model does not see these fields)
+        nuc_sets = [None] + [(c[2] if len(c) > 2 else None) for c in case.get("more", [])]
         counter = {"tools": 0}
         CAP = 60000
         mock = bool(case.get("autoprov"))     # the provider is whatever Nucleus() detects (MockProvider), not a stub
@@ -1551,6 +1798,8 @@ class C18(Check):
         real_time, NU.time = NU.time, vt
         try:
             for j, (limit, auto) in enumerate(top_calls):
+                if nuc_sets[j] is not None:
+                    nuc.base_energy_cost, nuc.max_retries = nuc_sets[j]
                 try:
                     run_twt(j, limit, auto, top=(j == 0))
                 except Runaway as e:
@@ -1588,6 +1837,14 @@ class C18(Check):
             m = case.get("mem")
             body += " " + ("MRecord" if m is None else "MNone" if m == "none" else "MDouble" if m == "double"
                            else f"(MWindow {cnat(m[1])})" if m[0] == "window" else f"(MPre {cnat(m[1])})")
+            if "ops" in case:
+                def so(op):
+                    if op[0] != "set":
+                        return "SSupervise"
+                    if op[1] == "thr":
+                        return f"(SSetThr {cq(Fraction(op[2]))}%Q)"
+                    return f"({'SSetRegen' if op[1] == 'max_regen' else 'SSetSteps'} {cz(op[2])})"
+                return f"(CSwarmHist {body} {clist([so(op) for op in case['ops']])})"
             if case.get("again"):
                 return f"(CSwarmSeq {body} {cnat(1 + case['again'])})"
             return f"(CSwarm {body})"
@@ -1620,7 +1877,7 @@ class C18(Check):
             if k == "ask":
                 return "KAsk"
             return f"(KNest {cz(k[1])} {cbool(k[2])})"
-        calls = [[case["max_iter"], case["auto"]]] + [list(x) for x in case.get("more", [])]
+        calls = [[case["max_iter"], case["auto"]]] + [list(x[:2]) for x in case.get("more", [])]
         return (f"(CTool {pt} {ct} {clist([tk(k) for k in case['tools']])} {cbool(case['has_method'])} "
                 f"{cnat(case.get('depth', 1))} {clist([f'({cz(l)}, {cbool(a)})' for l, a in calls])})")
 
@@ -1651,6 +1908,14 @@ class C18(Check):
         else:
             gt = f"(GErrDep {gi(g['first'])} {cz(g['e0'])} {gi(g['hit'])} {gi(g['miss'])})"
         body = f"{gt} {clist(rows)} {cq(Fraction(case['decay']))}%Q {cz(case['max_retries'])}"
+        if "ops" in case:
+            def ho(op):
+                if op[0] != "set":
+                    return "HHeal"
+                if op[1] == "decay":
+                    return f"(HSetDecay {cq(Fraction(op[2]))}%Q)"
+                return f"(HSetRetries {cz(op[2])})"
+            return f"(CHealHist {body} {clist([ho(op) for op in case['ops']])})"
         if case.get("again"):
             return f"(CHealSeq {body} {cnat(1 + case['again'])})"
         return f"(CHeal {body})"
@@ -1673,16 +1938,21 @@ class C18(Check):
         for n, run in enumerate(t["runs"]):
             v = self._mon_heal_run(case, t, run)
             if v is not None:
+                if run.get("told"):
+                    v.what += f" [assigned on the live ChaperoneLoop before this call: {run['told']}]"
                 if n:
                     v.what += f" [in heal() call #{n + 1} on the same ChaperoneLoop]"
                 return v
         return None
 
     def _mon_heal_run(self, case, t, run):
-        bound = max(0, case["max_retries"] + 1)
+        # the budget of a call: max_retries as configured when the call is made (constructor value, or the last
+        # value assigned to the field since)
+        max_retries = run["cfg"]["max_retries"]
+        bound = max(0, max_retries + 1)
         calls, outs, ver, ids = run["calls"], run["outputs"], t["verdicts"], t["ids"]
         if len(calls) > bound:
-            return Violation("C18/heal-too-many-generator-calls", f"generator called {len(calls)} times with max_retries={case['max_retries']}")
+            return Violation("C18/heal-too-many-generator-calls", f"generator called {len(calls)} times with max_retries={max_retries}")
         for i, (k, s, ec) in enumerate(calls):
             if i == 0:
                 if s is not None:
@@ -1727,6 +1997,8 @@ class C18(Check):
         for n, run in enumerate(t["runs"]):
             v = self._mon_swarm_run(case, run, n == 0)
             if v is not None:
+                if run.get("told"):
+                    v.what += f" [assigned on the live RegenerativeSwarm before this call: {run['told']}]"
                 m = case.get("mem")
                 if m is not None:
                     v.what += " [workers " + ("keep their own transcript and never write their WorkerMemory" if m == "none" else
@@ -1739,15 +2011,17 @@ class C18(Check):
         return None
 
     def _mon_swarm_run(self, case, t, first):
-        wb = max(0, case["max_regen"] + 1)
-        sb = max(0, case["max_steps"])
+        # the budgets of a call: the fields as configured when the call is made
+        max_regen, max_steps = t["cfg"]["max_regen"], t["cfg"]["max_steps"]
+        wb = max(0, max_regen + 1)
+        sb = max(0, max_steps)
         if len(t["spawned"]) > wb:
-            return Violation("C18/swarm-too-many-workers", f"{len(t['spawned'])} workers spawned with max_regenerations={case['max_regen']}")
+            return Violation("C18/swarm-too-many-workers", f"{len(t['spawned'])} workers spawned with max_regenerations={max_regen}")
         if t["spawned"] != list(range(t["w0"], t["w0"] + len(t["spawned"]))):
             return Violation("C18/swarm-worker-numbering", f"workers spawned as {t['spawned']}")
         for w, ss in t["steps"].items():
             if len(ss) > sb:
-                return Violation("C18/swarm-too-many-steps", f"worker {w} ran {len(ss)} steps with max_steps_per_worker={case['max_steps']}")
+                return Violation("C18/swarm-too-many-steps", f"worker {w} ran {len(ss)} steps with max_steps_per_worker={max_steps}")
         r = t["res"]
         if r is None:
             ex = t["exc"]
@@ -1829,6 +2103,21 @@ class C18(Check):
         if case.get("loud") and trace.get("stdout"):
             tags.append(f"{k}:printed-something")
         ncalls = 1 + (case.get("again", 0) if k != "tool" else len(case.get("more", [])))
+        if k != "tool" and "ops" in case:
+            cfgs = [cf for cf, _ in hist_cfgs(case)]
+            ncalls = len(cfgs)
+            tags.append(f"{k}:attributes-assigned-on-a-live-object")
+            built = {f: case[f] for f in SET_ATTR[k]}
+            for f, name in SET_ATTR[k].items():
+                seq = [built[f]] + [cf[f] for cf in cfgs]
+                if any(b < a for a, b in zip(seq, seq[1:])):
+                    tags.append(f"{k}:{name}-lowered-before-a-call")
+                if any(b > a for a, b in zip(seq, seq[1:])):
+                    tags.append(f"{k}:{name}-raised-before-a-call")
+            if cfgs and cfgs[0] != built:
+                tags.append(f"{k}:no-call-under-the-construction-time-value")
+        if k == "tool" and any(len(m) > 2 for m in case.get("more", [])):
+            tags.append("tool:nucleus-fields-assigned-between-calls")
         if ncalls >= 6:
             tags.append(f"{k}:long-lived-object(>=6 calls)")
         if ncalls >= 20:
@@ -1840,13 +2129,16 @@ class C18(Check):
                     break
         if k == "heal":
             ncalls = len(trace["runs"][0]["calls"])
+            mr0 = trace["runs"][0]["cfg"]["max_retries"]      # in effect at the first call
             tags.append(f"heal:outcome={['valid_first_try', 'healed', 'degraded', 'generator_raised'][obs[0][1]]}")
-            tags.append(f"heal:max_retries={case['max_retries']}")
+            tags.append(f"heal:max_retries={mr0}")
             tags.append(f"heal:calls={ncalls}")
             tags.append(f"heal:gen={case['gen']['fam']}")
             tags.append(f"heal:chaperone={case['mode']}")
-            if ncalls == max(0, case["max_retries"] + 1):
+            if ncalls == max(0, mr0 + 1):
                 tags.append("heal:budget-hit-exactly")
+            if any(len(r["calls"]) == max(0, r["cfg"]["max_retries"] + 1) and r.get("told") for r in trace["runs"]):
+                tags.append("heal:assigned-budget-hit-exactly")
             if trace.get("misfolds"):
                 tags.append("heal:on_misfold-callback-invoked")
         elif k == "swarm":
@@ -1855,8 +2147,14 @@ class C18(Check):
             if any(any("Encountered errors" in h for h in hs) for hs in full.get("hints", [])):
                 tags.append("swarm:error-hints-passed-on")
             tags.append("swarm:" + ("raised" if trace["res"] is None else "success" if trace["res"]["success"] else "failed"))
-            tags.append(f"swarm:max_regen={case['max_regen']}")
-            tags.append(f"swarm:max_steps={case['max_steps']}")
+            mg0, ms0 = trace["cfg"]["max_regen"], trace["cfg"]["max_steps"]      # in effect at the first call
+            tags.append(f"swarm:max_regen={mg0}")
+            tags.append(f"swarm:max_steps={ms0}")
+            if any(len(r["spawned"]) == max(0, r["cfg"]["max_regen"] + 1) and r.get("told") for r in full["runs"]):
+                tags.append("swarm:assigned-worker-budget-hit-exactly")
+            if any(r.get("told") and any(len(x) == max(0, r["cfg"]["max_steps"]) for x in r["steps"].values())
+                   for r in full["runs"]):
+                tags.append("swarm:assigned-step-budget-hit-exactly")
             tags.append(f"swarm:workers={len(trace['spawned'])}")
             tags.append(f"swarm:fam={case.get('fam')}")
             deaths = sum(l[2] for l in obs if l and l[0] == 23) and max(l[2] for l in obs if l and l[0] == 23)
@@ -1870,12 +2168,12 @@ class C18(Check):
                     return 0 if m == "none" else 2 * n if m == "double" else min(n, m[1] + 1) if m[0] == "window" else n + m[1]
                 if any(recorded(len(ss)) != len(ss) for ss in trace["steps"].values()):
                     tags.append("swarm:recorded-history-differs-from-steps-run")
-            ms = max(0, case["max_steps"])
+            ms = max(0, ms0)
             if any(len(s) < ms and (not s or (s[-1] is not None and not has_marker(s[-1]))) for s in trace["steps"].values()) and ms > 0:
                 tags.append("swarm:entropy-collapse")
             if any(len(s) == ms for s in trace["steps"].values()):
                 tags.append("swarm:step-budget-hit-exactly")
-            if len(trace["spawned"]) == max(0, case["max_regen"] + 1):
+            if len(trace["spawned"]) == max(0, mg0 + 1):
                 tags.append("swarm:worker-budget-hit-exactly")
         else:
             fr0 = trace["frames"][0]
@@ -1920,13 +2218,39 @@ class C18(Check):
         return tags
 
     def shrink(self, case, pred):
+        """the minimised case; the violation's text is re-taken from the minimised case (it quotes counts, limits and
+        the assignments made before the failing call, which change while the history is shortened)"""
+        small = self._shrink(case, pred)
+        if small is not case:
+            v2 = self.monitor(small, *self._safe_impl(small))
+            for v in self.violations:
+                if v.case is case and v2 is not None and v2.signature == v.signature:
+                    v.what = v2.what
+        return small
+
+    def _shrink(self, case, pred):
         k = case["kind"]
+        if k in ("heal", "swarm") and "ops" in case:                 # the shortest history that still fails
+            ops = common.shrink_list(case["ops"], lambda o: any(x[0] == "call" for x in o) and pred({**case, "ops": o}))
+            case = {**case, "ops": ops}
+            if all(x[0] == "call" for x in ops):                     # no assignment needed: plain consecutive calls
+                c2 = {x: y for x, y in case.items() if x != "ops"}
+                if len(ops) > 1:
+                    c2["again"] = len(ops) - 1
+                if pred(c2):
+                    case = c2
         if k in ("heal", "swarm") and case.get("again", 0) > 1:      # the shortest life of the object that still fails
             for a in range(0, case["again"]):
                 c2 = {**case, "again": a} if a else {x: y for x, y in case.items() if x != "again"}
                 if pred(c2):
                     case = c2
                     break
+        if k == "heal":
+            for key in ("loud", "exc"):                                  # aspects that may be irrelevant to the failure
+                if key in case:
+                    c2 = {x: y for x, y in case.items() if x != key}
+                    if pred(c2):
+                        case = c2
         if k == "heal" and case["gen"]["fam"] == "script":
             items = common.shrink_list(case["gen"]["items"], lambda it: pred({**case, "gen": {**case["gen"], "items": it}}))
             return {**case, "gen": {**case["gen"], "items": items}}
